@@ -278,13 +278,17 @@ func runC11(c *Ctx) {
 	}
 	// lane i gets nonce base+i at the digest offset; CopyState after Absorb of exactly 243 trits
 	var encNonce *ssa.Function
+	// the digest occupies EncodedLen(len(digest)) trits — computed, or taken from what b1t6.Encode returned for a lane
+	// (its documented result; the batch always has lanes, so the value left by the lane loop is that result)
+	encRet := "call<github.com/iotaledger/iota.go/encoding/b1t6.Encode>(_, p1)"
+	offPat := "alt(call<github.com/iotaledger/iota.go/encoding/b1t6.EncodedLen>(len(p1)), " + encRet + ", phi(0, " + encRet + "), phi(" + encRet + ", 0))"
 	fill := false
 	for _, t := range deepCallTerms(c, sb) { // the lane loop may sit in the search routine or in a helper it calls per batch
 		cal := calleeOf(t)
 		if cal == nil || cal == lane || cal.Blocks == nil || !ana.InRepo(cal) {
 			continue
 		}
-		if _, ok := ana.Match("call<*>(slice(load(iaddr(_, bin<+>(ind<+1>(-1), 1))), call<github.com/iotaledger/iota.go/encoding/b1t6.EncodedLen>(len(p1)), none), bin<+>(ind<+"+WS+">(p2), conv<uint64>(bin<+>(ind<+1>(-1), 1))))", t); ok {
+		if _, ok := ana.Match("call<*>(slice(load(iaddr(_, bin<+>(ind<+1>(-1), 1))), "+offPat+", none), bin<+>(ind<+"+WS+">(p2), conv<uint64>(bin<+>(ind<+1>(-1), 1))))", t); ok {
 			fill = true
 			encNonce = cal
 		}
